@@ -57,6 +57,9 @@ impl RunReport {
         self.sim_ms = (k.now - nundb_verif_rt::kernel::EPOCH_BASE_NS) / 1_000_000;
         self.truncated = k.truncated;
         self.faults = k.stats.faults.clone();
+        if k.net.segments_split > 0 {
+            self.faults.insert("tcp_segment_split".into(), k.net.segments_split);
+        }
         self.probes = k.stats.probes.clone();
         self.event_hash = k.hash;
         for p in k.panics.iter() {
